@@ -103,10 +103,16 @@ func (c *fnCtx) execCall(st *State, in ssa.Instruction, cc *ssa.CallCommon, res 
 	type kept struct{ text, pre string }
 	var keeps []kept
 	if c.con != nil && len(c.con.Callbacks) > 0 {
+		cbName := ""
 		if p, ok := cc.Value.(*ssa.Parameter); ok {
+			cbName = p.Name()
+		} else if cc.IsInvoke() {
+			cbName = cc.Method.Name() // "callback M preserves e" also covers calls of the interface method M
+		}
+		if cbName != "" {
 			for _, cl := range c.con.Callbacks {
 				fs := strings.SplitN(cl.Text, " preserves ", 2)
-				if len(fs) != 2 || strings.TrimSpace(fs[0]) != p.Name() {
+				if len(fs) != 2 || strings.TrimSpace(fs[0]) != cbName {
 					continue
 				}
 				env := c.newEnvAt(st, in.Block())
@@ -139,12 +145,25 @@ func (c *fnCtx) panicExit(st *State, in ssa.Instruction, cc *ssa.CallCommon) {
 	if c.con == nil || len(c.con.OnPanic) == 0 || c.inPanicExit {
 		return
 	}
-	if _, isB := cc.Value.(*ssa.Builtin); isB || cc.IsInvoke() {
+	if _, isB := cc.Value.(*ssa.Builtin); isB {
 		return
 	}
-	switch cc.Value.(type) {
-	case *ssa.Function, *ssa.MakeClosure:
-		return // only calls through function values
+	if cc.IsInvoke() {
+		// an interface method call counts if a callback clause names the method
+		named := false
+		for _, cl := range c.con.Callbacks {
+			if strings.HasPrefix(cl.Text, cc.Method.Name()+" preserves ") {
+				named = true
+			}
+		}
+		if !named {
+			return
+		}
+	} else {
+		switch cc.Value.(type) {
+		case *ssa.Function, *ssa.MakeClosure:
+			return // only calls through function values
+		}
 	}
 	if _, isDefer := in.(*ssa.Defer); isDefer {
 		return
